@@ -75,6 +75,11 @@ CHECKS = {
     technique="TLA+ spec RpycBoxing: boxing/arrival table for all value shapes to nesting depth 2 (exported by TLC with meta-properties as ASSUMEs) and a TLC-checked identity state machine (send / echo / re-send / drop); every shape refined to concrete objects and sent, inspected and passed back over a real connection pair; every history edge replayed with identity checks; obtain/deliver under classic mode",
     text="for 7734 shapes (exact plain values, subclass instances, containers, functions, classes, modules; tuples, frozensets, slices of them) the specification says what must arrive (exact-type copy, fresh tuple, reference); the receiving handler checks exactly that on a real connection and the sender checks that references come home as the original object; histories check that a re-received object is the same proxy while one is alive and that echoes resolve to the original; mutation through references and obtain/deliver independence are checked",
     note="leaves refined to representative concrete types; quick tier executes a seeded third of the shapes"),
+ "C01": dict(
+    spec="RpycCallTree", design="5/C01",
+    technique="TLA+ spec RpycCallTree: call trees spread over two peers evaluated by a message-passing state machine (stacks of activations, FIFO streams, re-entrant serve, routing by sequence number) vs. structural recursion EvalLocal, model-checked by TLC for all 3158 enumerated trees; every tree instantiated as real closures on two real Connections and compared with EvalLocal (result, exception class/args, per-node invocation counts, received arguments), with single-process execution as second oracle for the spec",
+    text="TLC proves for every enumerated tree (depth<=3, fan-out<=2, all raise/catch placements) that the distributed evaluation equals local recursion and runs every reached node exactly once; each tree is executed on a real connection pair with callbacks nesting in both directions, argument shapes covering values, nested tuples, mixed tuples, references, keyword-only and mixed calls, and results returned by value and by reference; deeper/wider random trees are judged by single-process evaluation",
+    note="quick tier executes a seeded third of the enumerated trees plus 60 random deeper ones; node bodies are pure apart from counters"),
 }
 NA = {}
 
